@@ -42,6 +42,48 @@ def _calls(node, attr):
             and n.func.attr == attr]
 
 
+def _frame_walk(m, sym, own, parent, must_raise, forbidden=None):
+    """Nearest-frame-first lookup shape, by guard dominance: every use of the own map (`own`) is dominated by
+    `sym in self.map`; every delegation (`parent`) by `sym not in self.map` and `self.parent`; when must_raise, a
+    raise is dominated by both being false; both kinds of site exist."""
+    g = CFG(m.node, implicit_exc=False)
+    facts = must_facts(g)
+    n_own = n_par = n_raise = 0
+    for node in g.nodes:
+        a = node.ast
+        if a is None or node.kind == "for":
+            continue
+        have = facts.get(node.id, frozenset())
+        inmap = (f"{sym} in self.map", True) in have or (f"{sym} not in self.map", False) in have
+        notin = (f"{sym} in self.map", False) in have or (f"{sym} not in self.map", True) in have
+        haspar = ("self.parent", True) in have or ("self.parent is not None", True) in have or \
+            ("self.parent is None", False) in have
+        nopar = ("self.parent", False) in have or ("self.parent is not None", False) in have or \
+            ("self.parent is None", True) in have
+        for x in [a] + list(ast.walk(a)):
+            if forbidden is not None and forbidden(x):
+                return False, f"unexpected write {norm(x)[:50]}"
+            if own(x):
+                if not inmap:
+                    return False, f"`{norm(x)[:50]}` is not dominated by `{sym} in self.map`"
+                n_own += 1
+                break
+        for x in ast.walk(a):
+            if parent(x):
+                if not (notin and haspar):
+                    return False, f"`{norm(x)[:50]}` is not dominated by `{sym} not in self.map` and `self.parent`"
+                n_par += 1
+        if isinstance(a, ast.Raise) and notin and nopar:
+            n_raise += 1
+    if not n_own:
+        return False, "own map never consulted"
+    if not n_par:
+        return False, "parent never consulted"
+    if must_raise and not n_raise:
+        return False, "no error when the name is in no frame"
+    return True, ""
+
+
 def run(ctx):
     model = ctx.model
     # ---------------------------------------------------------------- capture
@@ -139,39 +181,60 @@ def run(ctx):
     ctx.check("C03.defset", put, None, ok, "Environment.put does more than store into its own map",
               expr="put body", site="Environment.put: self.map[name] = value")
     name, val = set_.params[1], set_.params[2]
-    top = set_.node.body[0] if set_.node.body else None
-    ok = len(set_.node.body) == 1 and isinstance(top, ast.If) and norm(top.test) == f"{name} in self.map" \
-        and [norm(s) for s in top.body] == [f"self.map[{name}] = {val}"]
-    if ok:
-        nxt = top.orelse[0] if len(top.orelse) == 1 else None
-        ok = isinstance(nxt, ast.If) and norm(nxt.test) == "self.parent" \
-            and [norm(s) for s in nxt.body] == [f"self.parent.set({name}, {val})"] \
-            and len(nxt.orelse) == 1 and isinstance(nxt.orelse[0], ast.Raise)
+    ok, why = _frame_walk(set_, name,
+                          own=lambda x: isinstance(x, ast.Assign) and norm(x.targets[0]) == f"self.map[{name}]"
+                          and norm(x.value) == val,
+                          parent=lambda x: isinstance(x, ast.Call) and norm(x.func) == "self.parent.set"
+                          and [norm(a) for a in x.args] == [name, val], must_raise=True,
+                          forbidden=lambda x: isinstance(x, (ast.Assign, ast.AugAssign)) and "self.map" in norm(
+                              x.targets[0] if isinstance(x, ast.Assign) else x.target)
+                          and not (isinstance(x, ast.Assign) and norm(x.targets[0]) == f"self.map[{name}]"))
     ctx.check("C03.defset", set_, None, ok,
               "Environment.set is not: store where the name exists, else delegate to the parent, else raise - "
-              "an assignment could create a binding or stop at the wrong frame", expr="set body",
+              f"an assignment could create a binding or stop at the wrong frame ({why})", expr="set body",
               site="Environment.set: existing binding in the nearest frame, else parent, else error")
     get = env.methods["get"]
-    t = norm(get.node)
-    ok = "if symbol in self.map:" in t and "if self.parent: return self.parent.get(symbol, pos)" in t.replace("\n", " ")
-    ctx.check("C03.defset", get, None, ok, "Environment.get does not look in its own map first and then in the parent",
+    sym = get.params[1]
+    ok, why = _frame_walk(get, sym,
+                          own=lambda x: isinstance(x, ast.Subscript) and norm(x) == f"self.map[{sym}]",
+                          parent=lambda x: isinstance(x, ast.Call) and norm(x.func) == "self.parent.get"
+                          and x.args and norm(x.args[0]) == sym, must_raise=True)
+    ctx.check("C03.defset", get, None, ok,
+              f"Environment.get does not look in its own map first and then in the parent ({why})",
               expr="get walk", site="Environment.get: nearest frame first, then parents")
     isd = env.methods["isDefined"]
-    t = norm(isd.node).replace("\n", " ")
-    ok = "if symbol in self.map: return True" in t and "return self.parent.isDefined(symbol)" in t
-    ctx.check("C03.defset", isd, None, ok, "Environment.isDefined does not walk the parent chain", expr="isDefined walk",
-              site="Environment.isDefined: walks the chain")
+    sym = isd.params[1]
+    ok, why = _frame_walk(isd, sym,
+                          own=lambda x: isinstance(x, ast.Return) and norm(x.value) == "True",
+                          parent=lambda x: isinstance(x, ast.Call) and norm(x.func) == "self.parent.isDefined"
+                          and x.args and norm(x.args[0]) == sym, must_raise=False)
+    ctx.check("C03.defset", isd, None, ok, f"Environment.isDefined does not walk the parent chain ({why})",
+              expr="isDefined walk", site="Environment.isDefined: walks the chain")
 
     # ---------------------------------------------------------------- pipeline
     inv = model.func(P, "parser", "_invoke")
-    body_if = [n for n in inv.node.body if isinstance(n, ast.If)]
-    ok = False
-    if body_if:
-        stmts = body_if[0].body
-        idx_add = [i for i, s in enumerate(stmts) if norm(s) == f"call.addArg(None, {inv.params[1]})"]
-        idx_loop = [i for i, s in enumerate(stmts) if isinstance(s, ast.While)]
-        adds_before = [i for i, s in enumerate(stmts) if "call.addArg(" in norm(s) and not isinstance(s, ast.While)]
-        ok = len(idx_add) == 1 and len(idx_loop) == 1 and idx_add[0] < idx_loop[0] and adds_before[0] == idx_add[0]
+    piped = inv.params[1]
+    g = CFG(inv.node, implicit_exc=False)
+
+    def is_piped_add(x):
+        return isinstance(x, ast.Call) and norm(x.func) == "call.addArg" and len(x.args) == 2 \
+            and norm(x.args[0]) == "None" and norm(x.args[1]) == piped
+
+    def is_other_add(x):
+        if not isinstance(x, ast.Call) or is_piped_add(x):
+            return False
+        if norm(x.func) == "call.addArg":
+            return True
+        # a helper that receives the call node may add the explicit arguments
+        return isinstance(x.func, ast.Name) and any(norm(a) == "call" for a in x.args)
+
+    from ..pathcount import must_pass
+    seen = must_pass(g, lambda node, label: "piped" if node.ast is not None and node.kind != "for" and any(
+        is_piped_add(x) for x in ast.walk(node.ast)) else None)
+    n_piped = sum(1 for n in ast.walk(inv.node) if is_piped_add(n))
+    others = [(node, x) for node in g.nodes if node.ast is not None and node.kind != "for"
+              for x in ast.walk(node.ast) if is_other_add(x)]
+    ok = n_piped == 1 and bool(others) and all("piped" in seen.get(node.id, frozenset()) for node, x in others)
     ctx.check("C03.pipe", inv, None, ok,
               "the piped value is not added as the first argument before the explicit arguments: x !> f(a) would not "
               "mean f(x, a)", expr="pipeline first argument", site="_invoke: call.addArg(None, <piped node>) first")
@@ -231,7 +294,19 @@ def run(ctx):
               expr="parameter by reference", site="FuncLambda.execute: put(name, args.get(name))")
     sa = model.method(P, "Args", "setArgs")
     stores = [n for n in ast.walk(sa.node) if isinstance(n, ast.Assign) and norm(n.targets[0]).startswith("self.args[")]
-    ok = bool(stores) and all(norm(s.value) in ("values[i]", "rest") for s in stores)
+    vals = sa.params[2]
+    elem = {f"{vals}[i]", "rest"}
+    for n in ast.walk(sa.node):
+        if isinstance(n, ast.For):
+            it = norm(n.iter)
+            if it == vals and isinstance(n.target, ast.Name):
+                elem.add(n.target.id)
+            elif it == f"enumerate({vals})" and isinstance(n.target, ast.Tuple) and len(n.target.elts) == 2:
+                elem.add(norm(n.target.elts[1]))
+                elem.add(f"{vals}[{norm(n.target.elts[0])}]")
+            elif it == f"range(len({vals}))" and isinstance(n.target, ast.Name):
+                elem.add(f"{vals}[{n.target.id}]")
+    ok = bool(stores) and all(norm(st.value) in elem for st in stores)
     ctx.check("C03.byref", sa, None, ok, "Args.setArgs stores something else than the argument objects",
               expr="setArgs stores", site="Args.setArgs: args[name] = values[i]")
     iv = model.func(P, "nodes", "invoke")
@@ -242,7 +317,9 @@ def run(ctx):
 
     # ---------------------------------------------------------------- spread
     loops = [n for n in iv.node.body if isinstance(n, ast.For)]
-    ok = len(loops) == 1 and norm(loops[0].iter) == "range(len(args))" and "isinstance(arg, NodeSpread)" in norm(loops[0])
+    argp = iv.params[2]
+    ok = len(loops) == 1 and norm(loops[0].iter) in (f"range(len({argp}))", f"enumerate({argp})", argp) \
+        and "NodeSpread)" in norm(loops[0])
     ctx.check("C03.spread", iv, None, ok, "arguments (and spreads) are not processed in source order in one loop",
               expr="argument loop", site="invoke: one pass over the arguments in order")
     ok = t.index("args_.addArgs(fn.getArgNames())") < t.index("args_.setArgs(names, values)") < t.index("fn.execute(args_, environment, pos)") \
